@@ -30,6 +30,7 @@ SIG_D6 = "membership:reapply-at-commit-undoes-later-change"
 SIG_FOLD = "membership:members-not-fold-of-log"
 SIG_GATE = "membership:change-accepted-while-earlier-uncommitted"
 SIG_SELF = "membership:remove-self-not-denied"
+SIG_ACK = "membership:request-acknowledged-without-an-applied-entry"
 SIG_AGREE = "membership:nodes-disagree-on-member-set"
 
 
@@ -143,9 +144,24 @@ class Cluster(object):
             m = step_set(m, i, k, n)
         return m
 
+    def acknowledged_without_entry(self, what):
+        """C10/C02 for membership commands: a request answered SUCCESS stands for ONE applied membership entry of its own."""
+        import collections as _c
+        acked = _c.Counter()
+        for (tag, e) in self.res:
+            if e == 0:
+                acked[tag.split("@")[0]] += 1               # "add d" / "rem d"
+        applied = _c.Counter("%s %s" % (k, n) for (k, n) in self.committed_mem.values())
+        for key, n in acked.items():
+            if n > applied.get(key, 0) and not any(v["signature"] == SIG_ACK for v in self.viols):
+                self.viols.append({"signature": SIG_ACK,
+                                   "what": "%s: request '%s' was answered SUCCESS %d time(s) but only %d such membership command(s) "
+                                           "were ever applied by any node (callbacks %s)" % (what, key, n, applied.get(key, 0), self.res[-6:])})
+
     def check(self, what):
         sim = self.sim
         self.sync_connections()
+        self.acknowledged_without_entry(what)
         for i in list(sim.objs):
             have, want = self.members(i), self.fold(i)
             if want is not None and have != want:
